@@ -92,6 +92,19 @@ def worker(case):
     ad, n = _hier.prepare(case)
     s = core.sdn()
     HRef = s.HRef
+    if len(case) > 3 and case[3] == "array1":
+        # one-element array bundles with a non-zero base index
+        for d in n.libraries[0].definitions:
+            for c in d.cables:
+                if len(c.wires) == 1:
+                    c.is_array = True
+                    c.lower_index = 5
+                    break
+            for p_ in d.ports:
+                if len(p_.pins) == 1:
+                    p_.is_array = True
+                    p_.lower_index = 3
+                    break
     if len(case) > 3 and case[3] == "unnamed":
         for d in n.libraries[0].definitions:
             for x in list(d.children)[:1]:
@@ -155,6 +168,16 @@ def worker(case):
                         break
                     if h.name != expected_name(seq):
                         probs.append(("wrong-name:" + fname, "%r != %r" % (h.name, expected_name(seq))))
+                        break
+                # ... and that name is the key under which the query finds it again
+                for h in res[:25]:
+                    nm_ = h.name
+                    if not nm_ or any(ch in nm_ for ch in "*?"):
+                        continue
+                    nq[0] += 1
+                    back = [chain(x) for x in fns[fname](n, nm_, recursive=True)]
+                    if chain(h) not in back:
+                        probs.append(("not-found-by-its-own-name:" + fname, "%s(netlist, %r) does not return the reference named %r" % (fname, nm_, nm_)))
                         break
     for pc, path in occ.inst.items():
         href = HRef.from_sequence(list(path))
@@ -300,6 +323,7 @@ def cases(tier):
         nd = len(design.SKELETONS[sk][0])
         for first in ((0,) * nd, (1,) + (0,) * (nd - 1)):
             out.append(((sk, first, "plain"), "asc", "query", "unnamed"))
+            out.append(((sk, first, "plain"), "asc", "query", "array1"))
             for ei in range(MAX_EDITS):
                 for order in core.ORDER_VARIANTS:
                     out.append(((sk, first, "plain"), order, "edit", ei))
